@@ -149,6 +149,22 @@ theorem C15_set_visible (w : World) (i : Nat) (hi : i < w.length) (n v : List Ch
     ((wstep w (.set i n v)).1.env i).get n = some v := by
   simp [wstep, World.env, List.getD, hi, get_set_same]
 
+/-- **No memo, no sharing**: what a statement is inlined to is a function of its own connection's dict and its
+    text — nothing else (no cache keyed by the text, no other connection's dict). -/
+theorem C15_use_own_dict (w : World) (i : Nat) (t : List Char) :
+    (wstep w (.use i t)).2 = .text (Impl.inline (w.env i) t) := rfl
+
+/-- the byte-identical text on two connections, one right after the other: each sees its own variables (or its own
+    undefined-variable error) -/
+theorem C15_same_text_two_connections (w : World) (i j : Nat) (t : List Char) :
+    (wrun w [.use i t, .use j t]).2 = [.text (Impl.inline (w.env i) t), .text (Impl.inline (w.env j) t)] := rfl
+
+/-- `executemany` is one `execute` per row: a row that SETs the variable it references sees the SET of the row before
+    (`SET total = 0`, then rows `$total + 5`, `$total + 7` — values as the repaired SET stores them) -/
+example :
+    let w1 := (wstep [[("TOTAL".toList, "0".toList)]] (.set 0 "TOTAL".toList "(0 + 5)".toList)).1
+    (wrun w1 [.use 0 "SET total = $total + 7".toList]).2 = [.text (.ok "SET total = (0 + 5) + 7".toList)] := by decide
+
 /-! ## regression witnesses: the pinned code violated the property (repaired in fix-B 91ee0e3) -/
 
 /-- `$var10` was rewritten through `var1` -/
